@@ -11,6 +11,7 @@ func init() {
 	vfHarnesses["H_creader"] = H_creader
 	vfHarnesses["H_life_w"] = H_life_w
 	vfHarnesses["H_life_r"] = H_life_r
+	vfHarnesses["H_life_w2"] = H_life_w2
 	vfHarnesses["H_dep"] = H_dep
 }
 
@@ -511,5 +512,52 @@ func H_dep() {
 		vfAssert("dep-prefix-equal", vfEqBytes(out[:total], want[:total]))
 		vfAssert("dep-match-bytes-equal", vfEqBytes(out[total:], want[total:]))
 	}
+	vfReach("end")
+}
+
+
+// H_life_w2 (C17): Reset must make a Writer indistinguishable from a new one with the same
+// options, whatever was going on before, including a change of block size afterwards. Phase 1
+// (chosen symbolically): nothing / Write / Flush / ReadFrom on a Writer with block size bs1,
+// optionally closed; then Reset to a new sink, Apply(BlockSizeOption(bs2)), and an input of n
+// bytes (larger than the smaller block size) is written and closed. The second sink must hold
+// exactly what a brand-new Writer with the same options produces, and be a valid frame.
+func H_life_w2() {
+	bs1 := vfParam("bs1")
+	bs2 := vfParam("bs2")
+	in := hInput()
+	var s1, s2, s3 hSink
+	s1.failAt, s2.failAt, s3.failAt = -1, -1, -1
+	zw := NewWriter(&s1)
+	vfAssert("w2-apply1", zw.Apply(BlockSizeOption(hBlockSizes[bs1]), ConcurrencyOption(1)) == nil)
+	switch vfChoice("phase1", 4) {
+	case 1:
+		zw.Write(vfBytes("a", 3))
+	case 2:
+		zw.Flush()
+	case 3:
+		zw.ReadFrom(&hSource{data: vfBytes("a", 2), failAt: -1})
+	}
+	if vfChoice("close1", 2) == 1 {
+		zw.Close()
+	}
+	zw.Reset(&s2)
+	vfAssert("w2-apply2", zw.Apply(BlockSizeOption(hBlockSizes[bs2])) == nil)
+	n, err := zw.Write(in)
+	vfAssert("w2-write-ok", vfAnd(err == nil, n == len(in)))
+	vfAssert("w2-close-ok", zw.Close() == nil)
+	// a brand-new Writer with the same options
+	fresh := NewWriter(&s3)
+	fresh.Apply(BlockSizeOption(hBlockSizes[bs2]), ConcurrencyOption(1))
+	fresh.Write(in)
+	fresh.Close()
+	vfAssert("w2-reset-equals-new", vfEqBytes(s2.buf, s3.buf))
+	fi := refFrame(s2.buf, true)
+	vfAssert("w2-valid-frame", vfAnd(fi.ok, fi.consumed == len(s2.buf)))
+	vfAssert("w2-block-size-option-took-effect", fi.bsid == bs2)
+	for _, bl := range fi.blockLens {
+		vfAssert("w2-blocks-within-maximum", bl <= int(hBlockSizes[bs2]))
+	}
+	vfAssert("w2-content", vfEqBytes(fi.content, in))
 	vfReach("end")
 }
